@@ -251,6 +251,7 @@ func registerIntrinsics(e *Exec) {
 		e.res.Records = append(e.res.Records, fmt.Sprintf("%s %d", e.argStr(a[0], "vhRecord"), t.Val))
 		return nil
 	}
+	in["vh:vhWatch"] = func(e *Exec, a []Value, _ *ssa.CallCommon) Value { return nil }
 	in["vh:vhNote"] = func(e *Exec, a []Value, _ *ssa.CallCommon) Value { return nil }
 	in["vh:vhSymbolic"] = func(e *Exec, a []Value, _ *ssa.CallCommon) Value { return e.tb.True }
 
